@@ -47,23 +47,14 @@ Section WithTables.
     | _ => None
     end.
 
-  (* guard conjuncts, global numbering (bit k of the code):
-     1 F20a  class name is None/True/False
-     2 F20b  method/field/parameter name of a string without ASCII letter or digit
-     3 F20c  module name of such a string
-     4 F20d  tag names: empty attribute name, digit-leading names
-     5 F20g  tag attribute name that is a keyword
-     6 F20h  tag names keep non-ASCII word characters
-     7 F20i  is_valid_python_identifier accepts a trailing newline *)
+  (* guard conjuncts (bit k of the code):
+     1 F20d  tag names: digit-leading names (no digit prefix; pinned by the test-suite)
+     2 F20h  non-ASCII word characters are kept: tag names; module names of strings without ASCII letter/digit *)
   Definition call_guards (x : (N * str) * (bool * N)) : list bool :=
     let '((f, s), _) := x in
-    [ negb (f =? 0) || guard_F20a s;
-      negb (f =? 2) || has_alnum s;
-      negb (f =? 1) || has_alnum s;
-      negb ((f =? 3) || (f =? 4)) || (first_alnum_not_digit s && ((f =? 3) || has_alnum s));
-      negb (f =? 4) || negb (is_kw (m_tag_attr s));
-      negb ((f =? 3) || (f =? 4)) || no_foreign_word o_word s;
-      negb (f =? 6) || no_trailing_lf s ].
+    [ negb ((f =? 3) || (f =? 4)) || first_alnum_not_digit s;
+      if f =? 1 then has_alnum s || no_foreign_word o_word s
+      else negb ((f =? 3) || (f =? 4)) || no_foreign_word o_word s ].
 
   Definition run_calls (cases : list (((N * str) * (bool * N)) * option str)) : list N :=
     report (opt_eqb str_eqb) call call_guards cases.
@@ -72,7 +63,7 @@ Section WithTables.
   Definition pairs_eqb := list_eqb (pair_eqb str_eqb str_eqb).
 
   Definition run_fields (cases : list (list (str * bool) * list (str * str))) : list N :=
-    report pairs_eqb dedup_fields (fun ps => [forallb (fun p => has_alnum (fst p)) ps]) cases.
+    report pairs_eqb dedup_fields (fun _ => []) cases.
 
   (* models: output re-ordered to the input order *)
   Fixpoint find_idx (i : nat) (l : list (nat * (str * str))) : str * str :=
@@ -85,7 +76,7 @@ Section WithTables.
     map (fun i => find_idx i out) (seq 0 (length names)).
   Definition run_models (cases : list (list str * list (str * str))) : list N :=
     report pairs_eqb models_obs
-           (fun ns => [forallb guard_F20a ns]) cases.
+           (fun _ => []) cases.
 
   Definition run_enum (cases : list (list str * option (list str))) : list N :=
     report (opt_eqb (list_eqb str_eqb)) (dedup_enum m_enum_str) (fun _ => []) cases.
@@ -95,7 +86,7 @@ Section WithTables.
     (dedup_ops ids, dedup_ops (dedup_ops ids)).
   Definition run_ops (cases : list (list str * (list str * list str))) : list N :=
     report (pair_eqb (list_eqb str_eqb) (list_eqb str_eqb)) ops_obs
-           (fun ids => [guard_F07a ids; forallb has_alnum ids]) cases.
+           (fun ids => [guard_F07a ids]) cases.
 
   (* the path variables come from a Python set: the order in which the missing ones are appended is
      hash order, so both sides sort the appended part *)
@@ -105,8 +96,7 @@ Section WithTables.
     declared ++ isort str_leb (skipn (length declared) all).
   Definition run_params (cases : list (((list str * option str) * list str) * list str)) : list N :=
     report (list_eqb str_eqb) params_obs
-           (fun x => [guard_F04c (fst (fst x)); guard_F04d (fst (fst x)) (snd (fst x));
-                      forallb has_alnum (fst (fst x) ++ snd x)]) cases.
+           (fun x => [guard_F04c (fst (fst x)); guard_F04d (fst (fst x)) (snd (fst x))]) cases.
   (* loader: registered keys with the position of the raw schema whose content each holds; None = RuntimeError *)
   Definition key_eqb (a b : str * nat) : bool := str_eqb (fst a) (fst b) && Nat.eqb (snd a) (snd b).
   Definition run_schemas (cases : list (list str * option (list (str * nat)))) : list N :=
@@ -119,5 +109,5 @@ Section WithTables.
     match pipeline_models raw with Some l => Some (isort pm_leb l) | None => None end.
   Definition run_pipeline (cases : list (list str * option (list ((str * str) * nat)))) : list N :=
     report (opt_eqb (list_eqb pm_eqb)) pipeline_obs
-           (fun raw => [guard_F20k raw; guard_F20m raw; forallb guard_F20a (map class_name raw)]) cases.
+           (fun raw => [guard_F20k raw; guard_F20m raw]) cases.
 End WithTables.
